@@ -213,8 +213,12 @@ def run_cbmc(q, extra=()):
     flags = list(CBMC_FLAGS)
     if ob.get('field_sens') is not None: flags[flags.index('--max-field-sensitivity-array-size') + 1] = str(ob['field_sens'])
     cmd = ['cbmc', 'q.c', '--function', 'vf_main', '--unwind', str(unwind_of(q))] + flags + list(ob.get('cbmc_flags', [])) + list(extra)
-    cu = str(ob.get('copy_unwind', 40))
-    uws = ','.join('%s.%d:%s' % (f, i, cu) for f, k in (('vf_memcpy', 2), ('vf_memmove', 4)) for i in range(k))
+    cu = ob.get('copy_unwind', 40)
+    if isinstance(cu, str):
+        import collections
+        env = collections.defaultdict(lambda: 1); env.update(q.params); cu = eval(cu, {}, env)
+    cu = str(cu)
+    uws = ','.join('%s.%d:%s' % (f, i, cu) for f, k in (('vf_memcpy', 1), ('vf_memmove', 2)) for i in range(k))
     if ob.get('unwindset'): uws += ',' + ob['unwindset']
     if ob.get('unwind_loops'):
         # loops named by regex over CBMC's loop identifiers (function name + index), e.g. container growth loops
